@@ -2,16 +2,26 @@ use crate::passes::CfgError;
 use crate::passes::GenerationPass;
 
 pub struct EcallTerminationPass;
-impl GenerationPass for EcallTerminationPass {
-    fn run(cfg: &mut crate::cfg::Cfg) -> Result<(), Box<CfgError>> {
+impl EcallTerminationPass {
+    /// Remove the edges that leave the environment calls known to end the
+    /// program. Returns whether any edge was removed.
+    pub fn terminate_exits(cfg: &mut crate::cfg::Cfg) -> bool {
+        let mut removed = false;
         for node in cfg.iter() {
-            if node.is_program_exit() {
+            if node.is_program_exit() && !node.nexts().is_empty() {
                 for temp_node in node.nexts().clone() {
                     temp_node.remove_prev(&node);
                 }
                 node.clear_nexts();
+                removed = true;
             }
         }
+        removed
+    }
+}
+impl GenerationPass for EcallTerminationPass {
+    fn run(cfg: &mut crate::cfg::Cfg) -> Result<(), Box<CfgError>> {
+        Self::terminate_exits(cfg);
         Ok(())
     }
 }
